@@ -3,7 +3,7 @@
 From Coq Require Import Strings.String Floats.SpecFloat.
 Require Import Model.Base Model.Syntax Model.F64 Model.Lexer Model.Builder Model.Value Model.Context Model.Builtins
                Model.Eval Model.Iter Model.Interface Model.Script Model.InterfaceDefs Gen.Interface Model.InterfaceGen.
-Require Import Proofs.Common Proofs.C01Lex Proofs.C01Build Proofs.C01Eval Proofs.C12 Proofs.C14 Spec.Preorder.
+Require Import Proofs.Common Proofs.C01Lex Proofs.C01Build Proofs.C01Eval Proofs.C12 Proofs.C14 Spec.Preorder Proofs.LexLength.
 
 Lemma parse_no_panic (s : str) : is_panic (build_operator_tree s) = false.
 Proof.
@@ -31,4 +31,11 @@ Lemma parse_depth (s : str) (n : node) : build_operator_tree s = Ok n ->
 Proof.
   unfold build_operator_tree. intros H. apply bind_ok in H. destruct H as (ts & Ht & Hb).
   exists ts. split; [exact Ht|exact (build_depth ts n Hb)].
+Qed.
+
+(* a source string of k characters gives a tree at most k + 1 deep: every recursive function of the library
+   recurses at most that deep on an input of the documented size bound *)
+Lemma parse_depth_chars (s : str) (n : node) : build_operator_tree s = Ok n -> (depth n <= length s + 1)%nat.
+Proof.
+  intros H. destruct (parse_depth s n H) as (ts & Ht & Hd). pose proof (tokenize_length s ts Ht). lia.
 Qed.
